@@ -13,7 +13,6 @@ Definition strs_of (hs : list (pyobj * pyobj)) : list (str * str) :=
   map (fun h => (str_of (fst h), str_of (snd h))) hs.
 
 Section Oracle.
-Variable cap : str -> str.
 Variable lower : str -> str.
 
 Definition is_hop (o : pyobj) : bool :=
